@@ -113,7 +113,8 @@ AllCalls ==
    \/ Fam("iter", {"fwd", "fwd_post", "rev", "rev_post", "dist", "rdist"}, {0}, {0}, {"mut", "const", "c"})
    \/ Fam("iter", {"deref", "rderef", "back_from"}, IdxLegal \ {Len(s)}, {0}, {"mut", "const", "c"})
    \/ \E tk \in {"diff"}, p \in 0..(Len(s) - 1), c \in 0..(Len(s) - 1) : Do(A("iter", tk, "const", p, c, <<>>, 0, 0, 0))
-   \/ \E p \in 0..(Len(s) - 1), c \in 0..(Len(s) - 1) : Do(A("iter", "index", "mut", p, c, <<>>, 0, 0, 0))
+   \* iterator[] beyond the terminating zero is undefined behaviour by the documentation of operator[]: not generated
+   \/ \E p \in 0..(Len(s) - 1) : \E c \in 0..(Len(s) - 1 - p) : Do(A("iter", "index", "mut", p, c, <<>>, 0, 0, 0))
 
 MCInit == Init /\ act = [op |-> "Init"] /\ dead = FALSE
 MCNext == ~dead /\ AllCalls
